@@ -189,6 +189,9 @@ BODY = [
     '(setv d {"k" 1}) (print (get d "k"))',
     '(print #[[bracket "str"]])',
     "(print 'sym)",
+    # reading depends on compiling: a reader macro defined by one top-level form and used by a later one
+    '(defreader up (.upper (.parse-one-form &reader)))\n(print #up "abc")',
+    '(defreader twice (setv f (.parse-one-form &reader)) `(do ~f ~f))\n#twice (print "rm")',
 ]
 ENDING = [
     ("none", ""), ("none", ""), ("none", ""),
@@ -196,7 +199,17 @@ ENDING = [
     ("raise", '(raise (ValueError "boom"))'), ("zerodiv", "(/ 1 0)"), ("nameerr", "(print undefined-thing)"),
     ("compile-error", "(fn)"), ("read-error", "(print 1"), ("exit-argc", "(sys.exit (len sys.argv))"),
     ("assert", "(assert (= 1 2))"),
+    # uncaught OSErrors raised by the program itself
+    ("oserror", '(raise (OSError "boom"))'), ("oserror-errno", '(raise (OSError 5 "io"))'),
+    ("isadirectory", '(open "/")'), ("timeout", '(raise (TimeoutError "t"))'),
+    ("filenotfound", '(open "/nonexistent-dir-hyverif/x")'),
 ]
+FIXED_PROGRAMS = [
+    ("none", '(defreader up (.upper (.parse-one-form &reader)))\n(print #up "abc")'),
+    ("oserror", '(raise (OSError "boom"))'), ("isadirectory", '(open "/")'),
+    ("filenotfound", '(open "/nonexistent-dir-hyverif/x")'),
+]
+HEAD = ["(import sys)", '(print "ARGV0" (get sys.argv 0))', '(print "ARGV" (hy.repr (cut sys.argv 1 None)))']
 
 
 def gen_program(rng):
@@ -211,8 +224,10 @@ def gen_program(rng):
 
 E2E_ARGS = [a for a in ARG_POOL if "\t" not in a]
 
-def e2e_case(rng, idx):
+def e2e_case(rng, idx, fixed=None):
     kind, code = gen_program(rng)
+    if fixed is not None:
+        kind, code = fixed[0], "\n".join(HEAD + [fixed[1]]) + "\n"
     pre, st = gen_prefix(rng, allow=("B", "E", "u", "spy", "fn"))
     args = [rng.choice(E2E_ARGS) for _ in range(rng.choice([0, 1, 1, 2, 3, 4]))]
     dashed = rng.random() < 0.3
@@ -282,11 +297,24 @@ def corpus_cases():
     return out
 
 
+def m_filenotfound(rec, params):
+    """exactly: file mode only, the program itself dies with an uncaught FileNotFoundError, and hy reports it as if
+    the script could not be opened (exit status = errno 2, no traceback)"""
+    o = rec["observed"]
+    return (rec["key"] in ("mode-differs:file:rc", "mode-differs:file:stderr_class")
+            and rec["input"].get("program_kind") == "filenotfound" and o.get("mode") == "file"
+            and o["file"]["rc"] == 2 and o["c"]["rc"] == 1 and o["c"]["stderr_class"] == "FileNotFoundError"
+            and o["file"]["stdout"] == o["c"]["stdout"]
+            and cc.last_line(o.get("stderr_tail", "")).startswith("hy: Can't open file '/nonexistent-dir-hyverif/x'"))
+
+
 def e2e_oracle(chk, n_cases):
+    chk.matchers["c41_file_mode_program_filenotfound"] = m_filenotfound
     cc.sweep_stale("c41")
     root = cc.mktmp("c41")
     try:
         cases = corpus_cases()
+        cases += [e2e_case(chk.rng, i, fixed=f) for i, f in enumerate(FIXED_PROGRAMS)]
         cases += [e2e_case(chk.rng, i) for i in range(n_cases)]
         for i, c in enumerate(cases):
             c["idx"] = i
@@ -296,7 +324,8 @@ def e2e_oracle(chk, n_cases):
     nproc = 0
     for case, (res, want0) in zip(cases, results):
         nproc += len(res)
-        inp = {"code": case["code"], "pre": case["pre"], "args": case["args"], "module": case["modname"],
+        inp = {"code": case["code"], "program_kind": case["kind"], "pre": case["pre"], "args": case["args"],
+               "module": case["modname"],
                "file": case["filearg"].format(b=case["base"], d="<dir>")}
         how = "cd <dir with %s.hy holding the code>; PYTHONPATH=%s %s -m hy %s {-c CODE | FILE | - <CODE | -m %s} %s" % (
             case["base"], vlib.REPO, vlib.PY, " ".join(case["pre"]), case["modname"], " ".join(map(repr, case["args"])))
